@@ -1828,11 +1828,20 @@ fn eval_for_in(
     let iteree_idx = match iteree_idx.as_ref() {
         Value_::Int(i) => *i,
         _ => {
-            unreachable!(
-                "`for` loop index should always be an `Int`, got `{}`: {}",
-                iteree_idx.display(env),
-                outer_expr.position.as_ide_string(&env.project_root)
-            )
+            // The value stack of this frame no longer holds the loop
+            // state, e.g. after `:replace` or `:test` while stopped
+            // inside the loop. Report it rather than crashing the
+            // session, so the user can still `:abort`.
+            return Err((
+                RestoreValues(vec![iteree_idx.clone(), iteree_value.clone()]),
+                EvalError::Exception(ExceptionInfo {
+                    position: outer_expr.position.clone(),
+                    message: ErrorMessage(vec![Text(format!(
+                        "The value stack does not hold the state of this `for` loop: expected the loop index but got `{}`.",
+                        iteree_idx.display(env)
+                    ))]),
+                }),
+            ));
         }
     };
 
